@@ -823,6 +823,50 @@ func (c *SpecCtx) call(e *SExpr) *Val {
 		v := c.ghostMapRead(gm, inner)
 		c.gmOld = false
 		return v
+	case "ismethod":
+		// ismethod(f, recv, Name): the function value f is the method value recv.Name (decided on the symbolic value: a
+		// closure created on this path from that bound method with that receiver)
+		f := c.eval(e.Args[0])
+		recv := c.eval(e.Args[1])
+		mname := exprText(e.Args[2])
+		clo := f.Clo
+		if clo == nil && f.T != nil {
+			clo = c.state().Clos[f.T]
+		}
+		if clo == nil || clo.Fn == nil || len(clo.Bindings) != 1 {
+			return &Val{T: ts.False(), GT: boolT}
+		}
+		name := clo.Fn.Name()
+		if !strings.HasSuffix(name, "$bound") || strings.TrimSuffix(name, "$bound") != mname {
+			return &Val{T: ts.False(), GT: boolT}
+		}
+		b := clo.Bindings[0]
+		if b.T == nil || recv.T == nil {
+			return &Val{T: ts.False(), GT: boolT}
+		}
+		return &Val{T: ts.Eq(b.T, recv.T), GT: boolT}
+	case "literal":
+		// literal(x): the string x is built from string constants of the program only (through conditionals and
+		// concatenations of constants): decided on the symbolic value, not by the solver - e.g. a format string that
+		// no input can influence
+		x := c.eval(e.Args[0])
+		isLit := map[*Term]bool{}
+		for _, t := range X.E.strLits {
+			isLit[t] = true
+		}
+		var only func(t *Term) bool
+		only = func(t *Term) bool {
+			switch {
+			case isLit[t]:
+				return true
+			case t.Op == "ite" && len(t.Args) == 3:
+				return only(t.Args[1]) && only(t.Args[2])
+			case t.Op == "app" && t.Name == "str.cat" && len(t.Args) == 2:
+				return only(t.Args[0]) && only(t.Args[1])
+			}
+			return false
+		}
+		return &Val{T: ts.Bool(x.T != nil && only(x.T)), GT: boolT}
 	case "panicked": // this path went through a call marked `maypanic` that panicked (and was recovered)
 		return &Val{T: X.heap(c.state(), "GH|~panicked", SBool), GT: boolT}
 	case "min", "max":
